@@ -190,8 +190,19 @@ ResetEv ==
     /\ l' = l + 1
 
 \* ---------------------------------------------------------- step / genstep
+\* A draw the harness could not intercept (the dynamics drew from numpy's global generator through something other
+\* than its uniform [0,1) family): the side of the draw is then what the call showed - except that a
+\* probability-1 action is always lucky and a probability-0 action never - and the frequencies are tested at the
+\* end of the log (FreqClauses).  Never the case on the pinned tree.
+IsBlind(ev) == "blind" \in DOMAIN ev /\ ev.blind
+LuckOfEv(ev, a) ==
+    IF ~IsBlind(ev) THEN ev.u <= a.prob
+    ELSE IF a.prob >= 1000000 THEN TRUE
+    ELSE IF a.prob <= 0 THEN FALSE
+    ELSE ev.info.success \/ Len(ev.post_rows) > 0
+
 EOfEv(ev, a, preSt, postSt, postRows) ==
-    [ev |-> ev.ev, a |-> a, luck |-> (ev.u <= a.prob), ndraw |-> ev.ndraw,
+    [ev |-> ev.ev, a |-> a, luck |-> LuckOfEv(ev, a), ndraw |-> ev.ndraw, blind |-> IsBlind(ev),
      pre |-> preSt, post |-> postSt,
      res |-> [success |-> ev.info.success, value |-> ev.info.value,
               disc |-> SeqSet(ev.info.disc), newly |-> SeqSet(ev.info.newly),
@@ -259,7 +270,7 @@ PairClauses(ev, E) ==
               <<"C07", "network_level_failure_report_independent_of_draw",
                 (~NetPre(E.pre, E.a) \/ (E.a.kind = "privesc" /\ ~E.pre[E.a.target].comp))
                    => prv.res = E.res /\ prv.aux = E.aux>> >>
-    ELSE IF ev.ev = "step" /\ prv.u = ev.u
+    ELSE IF ev.ev = "step" /\ prv.u = ev.u /\ (IsBlind(ev) => prv.luck = E.luck)
       THEN << <<"C13", "step_equals_genstep",
                 /\ prv.post = E.post /\ prv.postRows = E.postRow
                 /\ prv.res = E.res /\ prv.reward = E.reward /\ prv.term = E.term
@@ -275,7 +286,7 @@ HasGrp(ev) == "grp" \in DOMAIN ev
 GroupClauses(ev, E) ==
     IF ~HasGrp(ev) THEN <<>>
     ELSE IF grp.id # ev.grp \/ grp.ev # ev.ev THEN <<>>
-    ELSE IF grp.a # E.a \/ grp.u # ev.u THEN <<>>
+    ELSE IF grp.a # E.a \/ grp.u # ev.u \/ (IsBlind(ev) /\ grp.luck # E.luck) THEN <<>>
     ELSE << <<"C12", "lockstep_state_reward_flags_info_equal",
               /\ grp.pre = E.pre /\ grp.post = E.post /\ grp.postRows = E.postRow
               /\ grp.reward = E.reward /\ grp.term = E.term /\ grp.trunc = E.trunc
@@ -328,11 +339,13 @@ StepEv ==
                           reward |-> E.reward, term |-> E.term, aux |-> E.aux, obs |-> E.obs]
                     ELSE [valid |-> FALSE]]
        /\ grp' = IF HasGrp(ev) /\ (grp.id # ev.grp \/ grp.ev # ev.ev)
-                   THEN [id |-> ev.grp, ev |-> ev.ev, a |-> a, u |-> ev.u, pre |-> preSt, post |-> postSt,
+                   THEN [id |-> ev.grp, ev |-> ev.ev, a |-> a, u |-> ev.u, luck |-> E.luck, pre |-> preSt, post |-> postSt,
                          postRows |-> E.postRow, reward |-> E.reward, term |-> E.term, trunc |-> E.trunc,
                          res |-> E.res, aux |-> E.aux, fo |-> E.fo, obs |-> E.obs]
                    ELSE grp
-       /\ hist' = Bump(hist, <<a.kind, x.gate, E.luck>>)
+       /\ hist' = LET h1 == Bump(hist, <<a.kind, x.gate, E.luck>>) IN
+                  IF E.blind /\ AllPre(preSt, a) /\ ~NoDraw(preSt, a)
+                    THEN Bump(h1, <<"blind", a.prob, E.luck>>) ELSE h1
     /\ UNCHANGED <<initRaw, mode, ndec>>
     /\ l' = l + 1
 
@@ -547,6 +560,21 @@ Accepted ==
     /\ PrintT(<<"CONSUMED", TLCGet("stats").diameter - 1, N>>)
     /\ TLCGet("stats").diameter - 1 = N
 
-Done == l = N + 1 => PrintT(<<"HIST", hist>>)
+\* C07, when the draw cannot be intercepted: over the calls whose preconditions held, the number of successes of
+\* the actions of one probability p stays within six standard deviations of n p (counts; 32-bit arithmetic)
+BlindKeys == {k \in DOMAIN hist : k[1] = "blind"}
+BlindProbs == {k[2] : k \in BlindKeys}
+CountOf(k) == IF k \in DOMAIN hist THEN hist[k] ELSE 0
+FreqOK(p) ==
+    LET s == CountOf(<<"blind", p, TRUE>>)
+        n == s + CountOf(<<"blind", p, FALSE>>)
+        pm == p \div 1000                           \* per mille
+        d == (IF s * 1000 >= n * pm THEN s * 1000 - n * pm ELSE n * pm - s * 1000) \div 1000
+        v == (((n * pm) \div 1000) * (1000 - pm)) \div 1000 + 1
+        d2 == d - (n \div 1000) - 1 IN             \* truncation of d and of p to per mille
+    n > 30000 \/ d2 <= 0 \/ d2 * d2 <= 36 * v
+Done == l = N + 1 =>
+           /\ PrintT(<<"HIST", [k \in DOMAIN hist \ BlindKeys |-> hist[k]]>>)
+           /\ Report({<<"C07", "success_frequency_matches_probability">> : p \in {q \in BlindProbs : ~FreqOK(q)}}, N)
 
 =============================================================================
